@@ -2,6 +2,7 @@ import Amgcl.Proofs.RelaxJacobi
 import Amgcl.Proofs.RelaxGS
 import Amgcl.Proofs.RelaxCheb
 import Amgcl.Proofs.RelaxIlu
+import Amgcl.Proofs.RelaxCheck
 /-!
 # C06 — every relaxation sweep equals its mathematical definition
 
@@ -380,5 +381,55 @@ theorem ilu0_sweep (ω : K) (F : IluFactors K) (A : CRS K) (f x t : Vec K) :
     ∧ (ilu0 ω).applyPost F A f x t = (ilu0 ω).applyPre F A f x t := ⟨rfl, rfl, rfl⟩
 
 end ilu
+
+/-! ## V-grade: soundness of the output checkers used for ILU(k), ILUP, ILUT and SPAI-1
+
+These smoothers are not modelled.  The harness reads the factors (`L`, `U`, inverted `D`) resp. the matrix `M` the
+real code produced and the driver evaluates the executable predicates of `Model/RelaxCheck.lean` on them; the
+theorems below say what a `true` verdict means.  This is translation validation: it holds for the explored inputs. -/
+section vgrade
+variable {K : Type} [Field K] [DecidableEq K]
+
+/-- `LUOnPattern`: a `true` verdict gives `((I+L)(D⁻¹+U))_ij = a_ij` on every admitted position -/
+theorem lu_on_pattern_sound (adm : Nat → Nat → Bool) (A : CRS K) (F : IluFactors K)
+    (h : luOnPatternb adm A F = true) (i j : Nat) (hi : i < A.nrows) (hj : j < A.nrows) (ha : adm i j = true) :
+    ∑ k ∈ range A.nrows, lowEntry F i k * upEntry F k j = A.get i j :=
+  luOnPattern_sound adm A F h i j hi hj ha
+
+/-- exact-inverse clause: if the checker finds `(I+L)(D⁻¹+U) = A` entrywise (which it must on tridiagonal, arrow and
+complete patterns), then the serial triangular solve inverts `A`: `A · solve(b) = b` -/
+theorem lu_exact_inverse (A : CRS K) (F : IluFactors K) (h : luExactb A F = true)
+    (hL : strictLowerb F.L = true) (hU : strictUpperb F.U = true) (hLwf : F.L.WF) (hUwf : F.U.WF)
+    (hLn : F.L.nrows = A.nrows) (hLc : F.L.ncols = A.nrows) (hUn : F.U.nrows = A.nrows) (hUc : F.U.ncols = A.nrows)
+    (hD : ∀ i, i < A.nrows → F.D.getD i 0 ≠ 0) (b : Vec K) (hb : b.size = A.nrows) (i : Nat) (hi : i < A.nrows) :
+    ∑ j ∈ range A.nrows, A.get i j * (iluSolve F b).getD j 0 = b.getD i 0 := by
+  have hinv := ilu_solve_serial_inverse F hL hU hLwf hUwf (by omega) (by omega) (by omega)
+    (fun k hk => hD k (by omega)) b (by omega) i (by omega)
+  rw [hLn] at hinv
+  rw [← hinv]
+  have : ∀ j ∈ range A.nrows, A.get i j * (iluSolve F b).getD j 0
+      = ∑ k ∈ range A.nrows, lowEntry F i k * (upEntry F k j * (iluSolve F b).getD j 0) := by
+    intro j hj
+    rw [← luExact_sound A F h i j hi (mem_range.mp hj), sum_mul]
+    apply sum_congr rfl; intro k _; ring
+  rw [sum_congr rfl this, sum_comm]
+  apply sum_congr rfl; intro k _; rw [mul_sum]
+
+end vgrade
+
+section vgrade_ls
+variable {K : Type} [Field K] [LinearOrder K] [IsStrictOrderedRing K] [DecidableEq K]
+
+/-- `LeastSquaresRow`: a `true` verdict (normal equations `(e_i − m A) A_kᵀ = 0` for every pattern column `k`) makes row
+`i` of `M` a minimiser of `‖e_i − m A‖₂²` over all rows `m` with the same values off the pattern of row `i` of `A` —
+the SPAI-1 clause of the property -/
+theorem least_squares_row_sound (A M : CRS K) (h : leastSquaresRowsb A M = true) (i : Nat) (hi : i < A.nrows)
+    (m : Nat → K) (hm : ∀ l, l < A.nrows → (∀ cv ∈ A.row i, cv.1 ≠ l) → m l = M.get i l) :
+    ∑ j ∈ range A.nrows, ((if i = j then 1 else 0) - ∑ l ∈ range A.nrows, M.get i l * A.get l j) ^ 2
+      ≤ ∑ j ∈ range A.nrows, ((if i = j then 1 else 0) - ∑ l ∈ range A.nrows, m l * A.get l j) ^ 2 := by
+  have := leastSquaresRows_sound A M h i hi m hm
+  simpa only [spaiResid_eq] using this
+
+end vgrade_ls
 
 end Amgcl.C06
